@@ -221,6 +221,13 @@ def check_cast_tables(r, T, rule="R5.6"):
     for fname in ("upcast_func", "downcast_func"):
         f = T.repo.func(T.rel, fname)
         dicts = [n for n in ast.walk(f) if isinstance(n, ast.Dict)]
+        # a table hoisted to module level: a name the function reads that the module binds, once, to a dict literal
+        used = {n.id for n in ast.walk(f) if isinstance(n, ast.Name) and isinstance(n.ctx, ast.Load)}
+        mod = T.repo.tree(T.rel)
+        for nm in sorted(used):
+            binds = [st for st in mod.body if isinstance(st, ast.Assign) and any(isinstance(t, ast.Name) and t.id == nm for t in st.targets)]
+            if len(binds) == 1 and isinstance(binds[0].value, ast.Dict):
+                dicts.append(binds[0].value)
         if len(dicts) != 1:
             raise AnalysisError(f"{T.rel}::{fname}: expected one dict literal, found {len(dicts)}")
         d = ev(dicts[0])
